@@ -252,6 +252,47 @@ func (p *Prog) dominatedByFullDrain(fn *ssa.Function, in ssa.Instruction, worker
 			}
 		}
 	})
+	// ... or by a private helper that sends the elements of its slice parameter to the channel it returns
+	eachInstr(fn, func(x ssa.Instruction) {
+		c, ok := x.(*ssa.Call)
+		if !ok {
+			return
+		}
+		g := c.Call.StaticCallee()
+		if g == nil || g.Pkg != p.RootSSA || len(g.Blocks) == 0 {
+			return
+		}
+		if _, isChan := c.Type().Underlying().(*types.Chan); !isChan {
+			return
+		}
+		eachInstr(g, func(y ssa.Instruction) {
+			snd, ok := y.(*ssa.Send)
+			if !ok {
+				return
+			}
+			ld, ok := canon(snd.X).(*ssa.UnOp)
+			if !ok || ld.Op != token.MUL {
+				return
+			}
+			ia, ok := ld.X.(*ssa.IndexAddr)
+			if !ok {
+				return
+			}
+			for i, q := range g.Params {
+				if canon(ia.X) == ssa.Value(q) && i < len(c.Call.Args) {
+					jobSlices = append(jobSlices, canon(c.Call.Args[i]))
+				}
+			}
+		})
+	})
+	// a copy made with the length of another slice has that slice's length
+	for _, js := range append([]ssa.Value{}, jobSlices...) {
+		if mk, ok := js.(*ssa.MakeSlice); ok {
+			if a, isLen := isLenOf(mk.Len); isLen {
+				jobSlices = append(jobSlices, canon(a))
+			}
+		}
+	}
 	if len(jobSlices) == 0 {
 		return false, "job queue is not filled from a slice"
 	}
@@ -424,6 +465,26 @@ func ruleG3(p *Prog, r *Report) {
 				continue // done signal channel: unbuffered by design, only closed
 			}
 			mk, ok := canon(a).(*ssa.MakeChan)
+			if !ok {
+				// a private helper that makes, fills and returns the queue
+				if hc, isCall := canon(a).(*ssa.Call); isCall {
+					if hg := hc.Call.StaticCallee(); hg != nil && hg.Pkg == p.RootSSA && len(hg.Blocks) > 0 {
+						var the *ssa.MakeChan
+						all := true
+						for _, ret := range returnsOf(hg) {
+							m2, isMk := canon(ret.Results[0]).(*ssa.MakeChan)
+							if len(ret.Results) != 1 || !isMk || (the != nil && the != m2) {
+								all = false
+								break
+							}
+							the = m2
+						}
+						if all && the != nil {
+							mk, ok = the, true
+						}
+					}
+				}
+			}
 			cons := fmt.Sprintf("buffered-chan:%s:arg%d", p.Name(launcher), i)
 			if !ok {
 				r.Unk(R, cons, p.InstrPos(g), "channel passed to the worker is not created by a local make")
@@ -493,6 +554,35 @@ func ruleG3(p *Prog, r *Report) {
 						if y.Block() == g.Block() || y.Block().Dominates(g.Block()) {
 							closedBefore = true // all jobs queued and the channel closed before any worker starts
 						}
+					}
+				})
+				// ... or a defer registered before the launch closes it at every return (in a function literal: before
+				// that literal waits for the workers)
+				eachInstr(launcher, func(y ssa.Instruction) {
+					d, isDefer := y.(*ssa.Defer)
+					if !isDefer || !isClose(y) || !(y.Block() == g.Block() || y.Block().Dominates(g.Block())) {
+						return
+					}
+					cl := closureOf(d.Call.Value)
+					if cl == nil {
+						closedBefore = true
+						return
+					}
+					var closeAt, waitAt ssa.Instruction
+					eachInstr(cl, func(w ssa.Instruction) {
+						c2, ok := w.(*ssa.Call)
+						if !ok {
+							return
+						}
+						if bi, ok := c2.Call.Value.(*ssa.Builtin); ok && bi.Name() == "close" && len(c2.Call.Args) == 1 && sameChan(c2.Call.Args[0], jobCap) {
+							closeAt = w
+						}
+						if calleeName(c2) == "Wait" && waitAt == nil {
+							waitAt = w
+						}
+					})
+					if closeAt != nil && (waitAt == nil || canReach(cl, waitAt, func(z ssa.Instruction) bool { return z == closeAt }, nil) == nil) {
+						closedBefore = true
 					}
 				})
 				reachFrom(launcher, g, nil, func(y ssa.Instruction) bool {
